@@ -49,6 +49,24 @@ KindsDisjoint == (DW + 1) \notin BlockLens /\ 2 \notin BlockLens /\ DW + 1 # 2
 \* the real widths: 72 + 32k vs 40 vs 16 bytes, for every payload length
 RealKindsDisjoint == \A k \in 0..1000 : 72 + 32 * k # 40 /\ 72 + 32 * k # 16
 
+\* the universe the harness instantiates with real messages (hsverif digests, record "universe"): a few digest/key values -- among them the
+\* all-zero digest, which is the hash inside QC::genesis(), and values that double as author keys -- two authors, two rounds, payloads of
+\* length <= 2, every value as parent.  All pre-images of the universe are pairwise distinct, across kinds too.
+UVals == {[i \in 1..DW |-> 0], [i \in 1..DW |-> IF i = DW THEN 1 ELSE 0], [i \in 1..DW |-> IF i = DW - 1 THEN 1 ELSE 0],
+          [i \in 1..DW |-> IF i >= DW - 1 THEN 1 ELSE 0], [i \in 1..DW |-> IF i = 1 THEN 1 ELSE 0]}
+UAuthors == {[i \in 1..DW |-> IF i = DW THEN 1 ELSE 0], [i \in 1..DW |-> IF i = DW - 1 THEN 1 ELSE 0]}
+UPayloads == UNION {[1..k -> UVals] : k \in 0..2}
+UBlocks == {BlockPre(a, r, p, q) : a \in UAuthors, r \in Rnd, p \in UPayloads, q \in UVals}
+UVotes == {VotePre(h, r) : h \in UVals, r \in Rnd}
+UTimeouts == {TimeoutPre(r, q) : r \in Rnd, q \in Rnd}
+UniverseDistinct ==
+  /\ Cardinality(UBlocks) = Cardinality(UAuthors) * Cardinality(Rnd) * Cardinality(UPayloads) * Cardinality(UVals)
+  /\ Cardinality(UVotes) = Cardinality(UVals) * Cardinality(Rnd)
+  /\ Cardinality(UTimeouts) = Cardinality(Rnd) * Cardinality(Rnd)
+  /\ UBlocks \cap UVotes = {} /\ UBlocks \cap UTimeouts = {} /\ UVotes \cap UTimeouts = {}
+USize == Cardinality(UBlocks) + Cardinality(UVotes) + Cardinality(UTimeouts)
+
 ASSUME BlockInjective /\ VoteInjective /\ TimeoutInjective
+ASSUME UniverseDistinct /\ USize = 634
 ASSUME KindsDisjoint /\ RealKindsDisjoint
 =============================================================================
